@@ -1657,7 +1657,7 @@ fn miri_args(assign: &[usize], expect: &[Res]) -> Vec<String> {
 pub fn miri_pass(verif_dir: &str, quick: bool) -> (MiriStats, Vec<Viol>) {
     let alpha = crate::race_ops::alphabet();
     let expect: Vec<Res> = alpha.iter().map(|&op| in_fresh_thread(move || crate::race_ops::run(op))).collect();
-    let mut st = MiriStats { available: false, assignments: 0, seeds_per_assignment: if quick { 24 } else { 48 }, reports: vec![] };
+    let mut st = MiriStats { available: false, assignments: 0, seeds_per_assignment: if quick { 16 } else { 48 }, reports: vec![] };
     let mut out = Vec::new();
     const BASE: &str = "-Zmiri-disable-isolation -Zmiri-ignore-leaks -Zmiri-deterministic-floats";
     // availability probe (one thread, one seed); an unusable Miri never fails the check
@@ -1960,14 +1960,15 @@ pub fn run(tier: &str, verif_dir: &str) -> Report {
         rep.sink.extend(v);
         rep.set("first_history_processes", json!({"preludes": procs, "results_compared": compared}));
     }
-    // long histories (counter wraps, tables that fill up), one family after the other so that per-process
-    // call counts seen by one family are not perturbed by the others
+    // long histories (counter wraps, tables that fill up)
     {
         let mut calls = 0u64;
         let fams = long_families(quick);
         let nf = fams.len();
-        for (name, x, filler, keys) in fams {
-            let (c, v) = long_history(&name, x, filler, keys);
+        // (each family on its own fresh thread, families side by side: per-thread state is not shared, and
+        // process-wide tables only fill faster)
+        let res: Vec<(u64, Vec<Viol>)> = fams.into_par_iter().map(|(name, x, filler, keys)| long_history(&name, x, filler, keys)).collect();
+        for (c, v) in res {
             calls += c;
             rep.sink.extend(v);
         }
